@@ -514,7 +514,15 @@ pub fn resolve_version<'a>(
       ) {
         let is_best_version = maybe_best_version
           .as_ref()
-          .map(|best_version| (*best_version).cmp(version).is_lt())
+          .map(|best_version| {
+            (*best_version)
+              .cmp(version)
+              // versions that only differ in their build metadata compare as
+              // equal, so break the tie in a way that does not depend on the
+              // iteration order of the (hash ordered) versions
+              .then_with(|| best_version.to_string().cmp(&version.to_string()))
+              .is_lt()
+          })
           .unwrap_or(true);
         if is_best_version {
           maybe_best_version = Some(version);
